@@ -53,6 +53,15 @@ CHECKS["C06"] = dict(
     note="Reference formulas decided by C05; bounded dependence shapes only (virocon integrates to infinity, parameters must stay admissible for every x>=0); 3-D cdf only in the thorough tier.",
     design="7/C06",
 )
+CHECKS["C10"] = dict(
+    technique="exhaustive enumeration of a finite lattice domain plus property-based testing (Hypothesis) of long random vectors against a reference model of the documented slicing semantics",
+    text="Exhaustive: every data vector of length <= 3 (quick) / <= 4 and a length-5 sub-lattice (thorough) over edge-hitting lattices for widths 1, 0.5, 0.1, 0.3, 0.7, in all orders, "
+         "times the full option product of WidthOfIntervalSlicer, NumberOfIntervalsSlicer and PointsPerIntervalSlicer (millions of slicer calls). Random: vectors of 50-20000 rounded, tied, "
+         "shuffled values with generated options. Oracle: exactly-one membership inside the covered range, mask alignment with input positions (order equivariance), members within non-overlapping "
+         "contiguous boundaries, documented references, drop rule == filtering of the unfiltered result, RuntimeError iff too few intervals, documented PPI blocks and midpoint boundaries.",
+    note="Assignment of a value within 1e-9*width of an interior edge to either neighbour is accepted (not fixed by the property); exhaustive only over the stated lattice.",
+    design="7/C10",
+)
 NOT_YET = {}
 
 def main():
